@@ -6,6 +6,7 @@
 mod c01;
 mod c04;
 mod c05;
+mod c07;
 mod c19;
 mod pipe;
 mod util;
@@ -43,6 +44,7 @@ fn main() {
                 "C04" => c04::record(&mut rec, seed, thorough),
                 "C01" => c01::record(&mut rec, seed, thorough),
                 "C05" => c05::record(&mut rec, seed, thorough),
+                "C07" => c07::record(&mut rec, seed, thorough),
                 _ => {
                     eprintln!("unknown property {}", prop);
                     std::process::exit(2);
